@@ -148,6 +148,9 @@ func (m *observerManager) AddObserver(o *Observer, w *World) {
 	o.id = m.pool.Get()
 
 	o.hasComps, o.hasWith, o.hasWithout = false, false, false
+	// The masks depend on the component IDs of the world the observer is registered to.
+	// Reset them, as the observer may have been registered to another world before.
+	o.compsMask, o.withMask, o.withoutMask = bitMask{}, bitMask{}, bitMask{}
 
 	switch o.event {
 	case OnAddRelations, OnRemoveRelations:
